@@ -189,7 +189,19 @@ pub fn gen_system(t: &mut Tape, cfg: &SysCfg) -> SysCase {
             g.add_symbol(&ctx, *i);
         }
     }
-    for i in inputs.iter() {
+    // inputs need not be registered in the order in which their symbols were created (a btor2 file
+    // whose dangling states are demoted to inputs, or a client that builds symbols first, gives
+    // an input list that is not sorted by expression id)
+    let mut reg_order: Vec<ExprRef> = inputs.clone();
+    if reg_order.len() >= 2 && t.chance(72) {
+        if t.flag() {
+            reg_order.reverse();
+        } else {
+            let k = 1 + t.below(reg_order.len() as u32 - 1) as usize;
+            reg_order.rotate_left(k);
+        }
+    }
+    for i in reg_order.iter() {
         sys.add_input(&ctx, *i);
     }
     // ---- next functions
